@@ -472,6 +472,10 @@ def run(ctx):
     ctx.do(r5_7)
     from . import c04, c10
     ctx.do(c04.r4_9)
+    from . import c03, c15
+    ctx.do(c03.r3_5)
+    ctx.do(c15.r15_3)
+    ctx.do(c15.r15_4)
     ctx.do(c10.r10_4)
     ctx.do(c10.r10_4_units)
     for k, v in RAISE_AFTER_EFFECT_OK.items():
